@@ -26,6 +26,9 @@ ASSUMPTIONS = [
     "the reconnect poll is bounded by the scenario's timer budget when the limit is None",
     "an OSError escaping a reader callback into the loop's exception handler is not itself a violation in loss scenarios",
 ]
+SANITY = ["runs_with_loss_tridonic", "runs_with_loss_hasseb", "runs_with_return_tridonic", "runs_with_return_hasseb",
+          "runs_with_cancel_tridonic", "runs_with_cancel_hasseb", "tail_sends", "runs_reporting_failed",
+          "sends_failed_with_CommunicationError", "serial_confirm_timeouts", "serial_silent_answers"]
 BOUNDS = {"quick": "loss + <=1 further deviation; cancel + 0 further deviations + 300-send tail", "thorough": "loss + <=2 further deviations (2 callers), double loss; cancel + <=1 further deviation"}
 
 
@@ -91,6 +94,18 @@ def judge_hid(res, cfg, w, obs):
     d = w.driver
     lost = any(x == "fault:loss" for x in w.trace)
     returned = any(x == "return" for x in w.trace)
+    if lost:
+        observe(res, f"runs_with_loss_{drv}")
+    if returned:
+        observe(res, f"runs_with_return_{drv}")
+    if any(x.startswith("cancel:") for x in w.trace):
+        observe(res, f"runs_with_cancel_{drv}")
+    if w.tail_n:
+        observe(res, "tail_sends", len(w.tail_results))
+    if "failed" in [s for t, s in obs["status"]]:
+        observe(res, "runs_reporting_failed")
+    if any(o[0] == "raised" and o[1] == "CommunicationError" for o in obs["callers"]):
+        observe(res, "sends_failed_with_CommunicationError")
     connected_end = obs["connected"]
     statuses = [s for t, s in obs["status"]]
     pending = []
@@ -217,6 +232,10 @@ def judge_serial(res, cfg, w, obs):
     oc, oc2 = obs["callers"]
     dt = w.times.get("end", 1e9) - w.times.get("start", 0)
     cmd = w.cmds[0]
+    if silent == "confirm" and oc[0] == "raised":
+        observe(res, "serial_confirm_timeouts")
+    if silent == "answer" and oc[0] == "returned":
+        observe(res, "serial_silent_answers")
     if silent == "confirm":
         if oc[0] != "raised" or oc[1] != "TimeoutError":
             add_violation(res, f"C17:{drv}:no-confirmation-not-reported", f"{cfg}: {oc}", case)
